@@ -40,6 +40,9 @@ structure Inj (N : NumOps) where
   related code never touches them, the owner may overwrite them (`SRel.setPinnedTR`, `SRel.setPinnedCR`) -/
   pinTR : List (Nat × Table N) := []
   pinCR : List (Nat × Val N) := []
+  /-- … and LEFT ones, symmetrically -/
+  pinTL : List (Nat × Table N) := []
+  pinCL : List (Nat × Val N) := []
 
 structure Inj.le (β β' : Inj N) : Prop where
   c : ∀ a b, β.c a b → β'.c a b
@@ -53,11 +56,13 @@ structure Inj.le (β β' : Inj N) : Prop where
   pinsR : ∀ p ∈ β.pinFR, p ∈ β'.pinFR
   pinsTR : ∀ p ∈ β.pinTR, p ∈ β'.pinTR
   pinsCR : ∀ p ∈ β.pinCR, p ∈ β'.pinCR
+  pinsTL : ∀ p ∈ β.pinTL, p ∈ β'.pinTL
+  pinsCL : ∀ p ∈ β.pinCL, p ∈ β'.pinCL
 
 theorem Inj.le_refl (β : Inj N) : β.le β :=
   ⟨fun _ _ h => h, fun _ _ h => h, fun _ _ h => h,
     ⟨Nat.le_refl _, Nat.le_refl _, Nat.le_refl _, Nat.le_refl _, Nat.le_refl _, Nat.le_refl _⟩,
-    fun _ _ h => .inl h, fun _ _ h => .inl h, fun _ _ h => .inl h, fun _ h => h, fun _ h => h, fun _ h => h, fun _ h => h⟩
+    fun _ _ h => .inl h, fun _ _ h => .inl h, fun _ _ h => .inl h, fun _ h => h, fun _ h => h, fun _ h => h, fun _ h => h, fun _ h => h, fun _ h => h⟩
 theorem Inj.le_trans {a b c : Inj N} (h1 : a.le b) (h2 : b.le c) : a.le c :=
   ⟨fun _ _ h => h2.c _ _ (h1.c _ _ h), fun _ _ h => h2.t _ _ (h1.t _ _ h), fun _ _ h => h2.f _ _ (h1.f _ _ h),
     ⟨Nat.le_trans h1.front.1 h2.front.1, Nat.le_trans h1.front.2.1 h2.front.2.1,
@@ -76,7 +81,8 @@ theorem Inj.le_trans {a b c : Inj N} (h1 : a.le b) (h2 : b.le c) : a.le c :=
       · exact h1.freshF x y h
       · exact .inr ⟨Nat.le_trans h1.front.2.2.2.2.1 h.1, Nat.le_trans h1.front.2.2.2.2.2 h.2⟩,
     fun p hp => h2.pins p (h1.pins p hp), fun p hp => h2.pinsR p (h1.pinsR p hp),
-    fun p hp => h2.pinsTR p (h1.pinsTR p hp), fun p hp => h2.pinsCR p (h1.pinsCR p hp)⟩
+    fun p hp => h2.pinsTR p (h1.pinsTR p hp), fun p hp => h2.pinsCR p (h1.pinsCR p hp),
+    fun p hp => h2.pinsTL p (h1.pinsTL p hp), fun p hp => h2.pinsCL p (h1.pinsCL p hp)⟩
 
 /-- a closure on the left that is below the frontier and unrelated: no extension ever relates it -/
 theorem Inj.le.protectedFL {β β' : Inj N} (h : β.le β') {a : Nat} (hlt : a < β.fL) (hu : ∀ b, ¬ β.f a b) :
@@ -344,6 +350,8 @@ structure SRel (Q : QRel) (cx : Cx) (β : Inj N) (σ σ' : State N) : Prop where
   /-- pinned right tables / cells hold their content, are below the frontier and related to nothing -/
   pinT : ∀ p ∈ β.pinTR, σ'.tables[p.1]? = some p.2 ∧ p.1 < β.tR ∧ ∀ a, ¬ β.t a p.1
   pinC : ∀ p ∈ β.pinCR, σ'.cells[p.1]? = some p.2 ∧ p.1 < β.cR ∧ ∀ a, ¬ β.c a p.1
+  pinTl : ∀ p ∈ β.pinTL, σ.tables[p.1]? = some p.2 ∧ p.1 < β.tL ∧ ∀ b, ¬ β.t p.1 b
+  pinCl : ∀ p ∈ β.pinCL, σ.cells[p.1]? = some p.2 ∧ p.1 < β.cL ∧ ∀ b, ¬ β.c p.1 b
   /-- the consumer's invariant on the private parts of the heaps -/
   inv : cx.I N β σ σ'
 
